@@ -382,7 +382,15 @@ class Ctx:
                     obs[i] = res[j]
                 else:
                     obs[i] = {'harness_error': f'runner died (rc={p.returncode}): '
-                              + (out or '')[-800:]}
+                              + (out or '')[-800:], 'runner_died': True, 'returncode': p.returncode}
+        # a runner that died takes the rest of its shard with it: isolate the culprit by
+        # re-running those cases one per process
+        dead = [i for i, o in enumerate(obs) if isinstance(o, dict) and o.get('runner_died')]
+        if dead and not per_process and len(dead) <= 400:
+            redo = self.run_impl([cases[i] for i in dead], func, shards=len(dead), timeout=timeout,
+                                 per_process=True)
+            for i, o in zip(dead, redo):
+                obs[i] = o
         return obs
 
     # -- model evaluation inside Coq ---------------------------------------------
